@@ -221,7 +221,8 @@ AdvForgeKB == Move("ForgeKB") /\ cur.kb = NoKB /\ \E k \in AdvKeys, va \in Verif
                  /\ va.aud # NONE /\ KeyFam[k] \in {"EC", "ED"}
                  /\ LET alg == IF KeyFam[k] = "EC" THEN "ES256" ELSE "EdDSA"
                         h == JObj([x \in {"alg", "typ"} |-> IF x = "alg" THEN JStr(alg) ELSE JStr("kb+jwt")])
-                        p == JObj([x \in {"nonce", "aud", "sd_hash"} |-> IF x = "nonce" THEN va.nonce ELSE IF x = "aud" THEN va.aud ELSE JStr(cur.sdh)])
+                        \* (an expectation without a nonce - rejected by the verifier as inconsistent arguments anyway - gives a KB-JWT without one)
+                        p == JObj([x \in {"aud", "sd_hash"} \cup (IF va.nonce = NONE THEN {} ELSE {"nonce"}) |-> IF x = "nonce" THEN va.nonce ELSE IF x = "aud" THEN va.aud ELSE JStr(cur.sdh)])
                         kb2 == MkJwt(h, p, "advsig:" \o k)
                     IN /\ Rewrite(ReMsg(cur.jwt, cur.discs, kb2), [a |-> "ForgeKB", k |-> k, alg |-> alg, aud |-> va.aud, nonce |-> va.nonce])
                        /\ ledger' = ledger \cup {Signed(k, alg, kb2.id)}
